@@ -221,15 +221,56 @@ class Evaluator:
             for p, a in zip(params, args):
                 if not self.bind(p, a, env):
                     return Sym("parambind", (fn.path,))
+            self._last_env = env
             try:
                 return self.ev(hir["value"], env)
             except Return as r:
                 return r.value
+            finally:
+                self._last_env = env
         finally:
             self.depth -= 1
 
     def lookup_fn(self, path):
         return self.facts.fn(path)
+
+    def _write_back(self, n, f, env):
+        """after folding a callee: what it assigned through a `&mut` parameter is visible in the caller's local"""
+        cenv = getattr(self, "_last_env", None)
+        if not isinstance(cenv, dict) or not isinstance(n, dict):
+            return
+        pats = f.hir.get("params") or []
+        nodes = []
+        if n.get("k") == "mcall":
+            nodes.append((n.get("recv"), str(n.get("recv_ty", "")).lstrip().startswith("&mut")))
+            nodes += [(a, isinstance(a, dict) and a.get("k") == "addr" and bool(a.get("mut"))) for a in n.get("args") or []]
+        else:
+            nodes += [(a, isinstance(a, dict) and a.get("k") == "addr" and bool(a.get("mut"))) for a in n.get("args") or []]
+        for (an, is_mut), pat in zip(nodes, pats):
+            if not is_mut or not isinstance(an, dict):
+                continue
+            while an.get("k") in ("addr", "un"):
+                an = an.get("e") if an["k"] == "addr" else an.get("a")
+                if not isinstance(an, dict):
+                    break
+            if not isinstance(an, dict) or pat.get("k") != "bind":
+                if is_mut:
+                    self.lossy.append("a `&mut` argument the folder cannot write back")
+                continue
+            newv = cenv.get(pat["name"])
+            chain = []
+            b = an
+            while b.get("k") == "field":
+                chain.append(b["name"])
+                b = b.get("e") or {}
+            if b.get("k") == "path" and "local" in b.get("res", {}):
+                name = b["res"]["local"]
+                if chain:
+                    env[name] = self._set_field(env.get(name, Sym("local", (name,))), list(reversed(chain)), newv)
+                else:
+                    env[name] = newv
+            else:
+                self.lossy.append("a `&mut` argument the folder cannot write back")
 
     def _dispatch_trait_method(self, path, recv):
         """a trait method called through a type parameter (`Roundable::is_exact(x, d)` inside generic code): with a concrete
@@ -1179,7 +1220,9 @@ class Evaluator:
         if f is not None and f.hir is not None and (self.inline(f.path) or (not f.reachable and _baseline.is_new(f.path))):
             # callees the rule asked for, and private helpers that did not exist when the rules were written (an
             # extract-function refactoring must not change a verdict)
-            return self._call(f, args)
+            r = self._call(f, args)
+            self._write_back(n, f, env)
+            return r
         r = Sym("call", (target if f is not None else path, tuple(args)))
         self.trace.append(r)
         for an in (n.get("args") or []) + ([n["recv"]] if isinstance(n.get("recv"), dict) else []):
